@@ -379,6 +379,7 @@ def rotations(c, rebound, exe):
             qv = ql(q)
             lines.append("fromto " + hv(*f, *t)); expect.append(" ".join(d2h(x) for x in qv)); meta.append(("fromto", cls))
             lines.append("fromtofixed " + hv(*f, *t)); expect.append(" ".join(d2h(x) for x in qv)); meta.append(("fromtofixed", cls))
+            lines.append("fromtotau " + d2h(1e-30) + " " + hv(*f, *t)); expect.append(" ".join(d2h(x) for x in qv)); meta.append(("fromtotau", cls))
             _ff, _tt = fr3(f), fr3(t)
             _anti = fdot(_ff, _tt) < 0 and sum(x * x for x in fcross(_ff, _tt)) <= Fr(1, 10 ** 24) * fdot(_ff, _ff) * fdot(_tt, _tt)
             ft_cases.append((f, t, cls if not _anti else "antiparallel-near", qv))
@@ -390,7 +391,7 @@ def rotations(c, rebound, exe):
                 _hs = math.sqrt(sum((a / _lf + b / _lt) ** 2 for a, b in zip(f, t)))
             except OverflowError:
                 _hs = 2.0
-            tolf[len(lines) - 1] = tolf[len(lines) - 2] = max(1.0, 2.0 / _hs) if _hs > 1e-9 else 1.0   # exactly opposite: own branch, well conditioned
+            tolf[len(lines) - 1] = tolf[len(lines) - 2] = tolf[len(lines) - 3] = max(1.0, 2.0 / _hs) if _hs > 1e-9 else 1.0   # exactly opposite: own branch, well conditioned
             hist[cls] = hist.get(cls, 0) + 1
             c.count(("from_to", cls, i % 40))
             # ---- search: unit and maps from -> to (oracle: exact rational q v q^-1 on the returned doubles,
@@ -541,6 +542,8 @@ def rotations(c, rebound, exe):
             for vv in ("00", "10", "01", "11"):
                 tolf[len(lines)] = _cond
                 lines.append("newaxes" + vv + " " + hv(*nz, *nx)); expect.append(" ".join(d2h(x) for x in ql(q))); meta.append(("newaxes" + vv, "newaxes"))
+            tolf[len(lines)] = _cond
+            lines.append("newaxestau " + d2h(1e-30) + " " + hv(*nz, *nx)); expect.append(" ".join(d2h(x) for x in ql(q))); meta.append(("newaxes21", "newaxes"))
             c.count(("new_axes", i % 40))
             lz = math.sqrt(sum(x * x for x in nz))
             zn = [x / lz for x in nz]
@@ -624,11 +627,12 @@ def rotations(c, rebound, exe):
         for ov in okv:
             for f_, t_ in ((dv, ov), (ov, dv)):
                 q = F["rotation_init_from_to"](V(*f_), V(*t_))
-                for opn in ("fromto", "fromtofixed"):
-                    lines.append(opn + " " + hv(*f_, *t_)); expect.append(" ".join(d2h(x) for x in ql(q))); meta.append((opn, "degenerate-input"))
+                for opn in ("fromto", "fromtofixed", "fromtotau " + d2h(1e-30)):
+                    lines.append(opn + " " + hv(*f_, *t_)); expect.append(" ".join(d2h(x) for x in ql(q))); meta.append((opn.split()[0], "degenerate-input"))
                 q = F["rotation_init_to_new_axes"](V(*f_), V(*t_))
                 for vv in ("00", "10", "01", "11"):
                     lines.append("newaxes" + vv + " " + hv(*f_, *t_)); expect.append(" ".join(d2h(x) for x in ql(q))); meta.append(("newaxes" + vv, "degenerate-input"))
+                lines.append("newaxestau " + d2h(1e-30) + " " + hv(*f_, *t_)); expect.append(" ".join(d2h(x) for x in ql(q))); meta.append(("newaxes21", "degenerate-input"))
                 dim("rotation: zero / NaN / inf constructor arguments", 2)
         for ang in (1.0, nanv, infv, 0.0):
             add("angleaxis " + hv(ang, *dv), ql(F["rotation_init_angle_axis"](ang, V(*dv))), "rotation_init_angle_axis")
@@ -642,7 +646,8 @@ def rotations(c, rebound, exe):
     nbit = ndis = 0
     first = None
     per = {}
-    VAR = ["fromto", "fromtofixed", "newaxes00", "newaxes10", "newaxes01", "newaxes11"]
+    VAR = ["fromto", "fromtofixed", "fromtotau", "newaxes00", "newaxes10", "newaxes01", "newaxes11", "newaxes21"]
+    strict = {k: 0 for k in VAR}
     vbit = {}
     ft_match = {k: [0, 0] for k in VAR}
     ft_bad = {k: None for k in VAR}
@@ -663,6 +668,7 @@ def rotations(c, rebound, exe):
         if tag in ft_match:
             # the model variants differ only in the exactly-antiparallel branch / the orthogonalisation
             ft_match[tag][0] += 1
+            strict[tag] += 1 if same else 0
             if okk or cls in ("antiparallel-near", "extreme-scale"):
                 ft_match[tag][1] += 1
             elif ft_bad[tag] is None:
@@ -678,23 +684,30 @@ def rotations(c, rebound, exe):
                     first = dict(routine=tag, op_line=l, model=g, impl=e)
     # which variant of the antiparallel branch / of the orthogonalisation does the compiled code implement?
     full = lambda k: ft_match[k][0] == ft_match[k][1]
-    f7 = "0" if full("fromto") else ("1" if full("fromtofixed") else None)
+    # among the variants that agree on every well-conditioned line, the one with most bitwise agreements (the variants
+    # differ on nearly antiparallel inputs, where only an exact match is meaningful)
+    cand7 = [(strict[k], -i, v) for i, (k, v) in enumerate((("fromto", "0"), ("fromtofixed", "1"), ("fromtotau", "2"))) if full(k)]
+    f7 = max(cand7)[2] if cand7 else None
     f18 = None
-    if f7 is not None:
+    if f7 == "2":
+        f18 = "1" if full("newaxes21") else None
+    elif f7 is not None:
         f18 = "0" if full("newaxes" + f7 + "0") else ("1" if full("newaxes" + f7 + "1") else None)
-    c.cov["from_to_model_variant_matching_the_code"] = {"0": "as found (antiparallel axis not normalised, F7)", "1": "repaired (fixes/F7.diff)", None: "neither"}[f7]
+    c.cov["from_to_model_variant_matching_the_code"] = {"0": "as found (antiparallel axis not normalised, F7)", "1": "repaired (fixes/F7.diff)",
+                                                        "2": "repaired (fixes/F7.diff + fixes/C20-from-to-nearly-antiparallel.diff)", None: "neither"}[f7]
     c.cov["to_new_axes_model_variant_matching_the_code"] = {"0": "as found (dot product with the un-normalised newz, F18)", "1": "repaired (fixes/C20-to-new-axes-orthogonalise.diff)", None: "neither"}[f18]
     if f7 is not None:
-        nbit += vbit.get("fromto" if f7 == "0" else "fromtofixed", 0)
+        nbit += vbit.get({"0": "fromto", "1": "fromtofixed", "2": "fromtotau"}[f7], 0)
         if f18 is not None:
             nbit += vbit.get("newaxes" + f7 + f18, 0)
     if f7 is None:
         c.corr_break("reb_rotation_init_from_to agrees with neither model variant (as found: %d/%d, repaired: %d/%d)"
                      % (ft_match["fromto"][1], ft_match["fromto"][0], ft_match["fromtofixed"][1], ft_match["fromtofixed"][0]), ft_bad["fromto"])
     elif f18 is None:
+        f7n = f7 if f7 != "2" else "1"
         c.corr_break("reb_rotation_init_to_new_axes agrees with neither model variant (as found: %d/%d, repaired: %d/%d)"
-                     % (ft_match["newaxes" + f7 + "0"][1], ft_match["newaxes" + f7 + "0"][0], ft_match["newaxes" + f7 + "1"][1], ft_match["newaxes" + f7 + "1"][0]),
-                     ft_bad["newaxes" + f7 + "0"])
+                     % (ft_match["newaxes" + f7n + "0"][1], ft_match["newaxes" + f7n + "0"][0], ft_match["newaxes" + f7 + "1"][1], ft_match["newaxes" + f7 + "1"][0]),
+                     ft_bad["newaxes" + f7 + "1"])
     c.cov["rotation_model_lines"] = len(lines)
     c.cov["rotation_lines_per_routine"] = per
     c.cov["rotation_bitwise_mismatches_within_tolerance"] = nbit - ndis
